@@ -1,5 +1,6 @@
 import SLModel.Core.DocValidate
 import SLModel.Core.DocValidateLegacy
+import SLModel.Core.FastCol
 /-!
 # C15 — every accepted document can be committed
 
@@ -20,6 +21,11 @@ The property now holds in full:
   the documented classes of violations are rejected when the document is queued;
 * `validated_collects` — `validate_document` alone already implies every content check of
   `collect_document` (so `ensure_storable` can only fail on the size);
+* `colset_total`, `colrun_total`, `colset_get` — commit-time state shared ACROSS the documents of
+  one commit: the fast-field column builder (`Core/FastCol`, `FastFieldsWriter::set`) accepts
+  every sequence of single- and multi-valued documents of the field's type (promotion single →
+  list is total, later single values are stored as one-element lists) and keeps each document's
+  values; `seeded_colset_fails` is the kernel-checked witness of the seeded variant panicking;
 * `legacy_*` — kernel-checked witnesses of the four original defects (validation before the
   repairs accepted documents that could not be committed / violated the schema) and of their
   rejection by the repaired code.
@@ -706,3 +712,105 @@ example : validateAdd (fun _ => false) (fun _ => 0) 0 wSchema
     (.obj (.cons 0 (.str 7) (.cons 2 (.arr (.cons (.str 4) .nil)) .nil))) = false := by decide
 
 end SL.Doc
+
+/-! ## commit-time state shared by the documents of one commit: the fast-field column builder -/
+
+namespace SL.FastCol
+
+variable {α : Type}
+
+/-- a column (or no column yet) of type `ty` -/
+def okFor (ty : Ty) : Option (Col α) → Prop
+  | none => True
+  | some c => c.ty = ty
+
+/-- `set` never hits `type mismatch` on a column of the value's type, whatever the column's
+shape and whatever the value's shape, and the column keeps its type -/
+theorem colset_total (ty : Ty) (col : Option (Col α)) (idx : Nat) (v : FV α)
+    (h : okFor ty col) : ∃ c, set ty col idx v = some c ∧ c.ty = ty := by
+  cases col with
+  | none => cases v <;> exact ⟨_, rfl, rfl⟩
+  | some c =>
+    cases c with
+    | single t vals =>
+      have ht : t = ty := h
+      subst ht
+      cases v <;> simp [set, Col.ty]
+    | list t vals =>
+      have ht : t = ty := h
+      subst ht
+      cases v <;> simp [set, Col.ty]
+
+/-- every sequence of `set` calls with values of the field's type succeeds: single- and
+multi-valued documents in any order, with gaps -/
+theorem colrun_total (ty : Ty) : ∀ (calls : List (Nat × FV α)) (col : Option (Col α)),
+    okFor ty col → ∃ c, run set ty col calls = some c ∧ okFor ty c
+  | [], col, h => ⟨col, rfl, h⟩
+  | (i, v) :: t, col, h => by
+    obtain ⟨c, hc, hty⟩ := colset_total ty col i v h
+    simp only [run, hc]
+    exact colrun_total ty t (some c) hty
+
+theorem getD_setAt {β : Type} (d : β) : ∀ (l : List β) (i : Nat) (x : β),
+    (setAt d l i x).getD i d = x
+  | [], 0, _ => rfl
+  | [], i + 1, x => by simpa [setAt] using getD_setAt d [] i x
+  | _ :: _, 0, _ => rfl
+  | _ :: t, i + 1, x => by simpa [setAt] using getD_setAt d t i x
+
+theorem getElem?_setAt {β : Type} (d : β) (l : List β) (i : Nat) (x : β) :
+    (setAt d l i x)[i]?.getD d = x := by
+  rw [← List.getD_eq_getElem?_getD]; exact getD_setAt d l i x
+
+/-- after `set`, the column holds exactly the document's values -/
+theorem colset_get (ty : Ty) (col : Option (Col α)) (idx : Nat) (v : FV α) (c : Col α)
+    (h : set ty col idx v = some c) : c.get idx = v.toList := by
+  cases col with
+  | none =>
+    cases v with
+    | one x =>
+      simp only [set, Option.some.injEq] at h
+      subst h
+      simp [Col.get, getElem?_setAt, FV.toList]
+    | many xs =>
+      simp only [set, Option.some.injEq] at h
+      subst h
+      simp [Col.get, getElem?_setAt, FV.toList]
+  | some c0 =>
+    cases c0 with
+    | single t vals =>
+      by_cases ht : t = ty
+      · cases v with
+        | one x =>
+          simp only [set, ht, if_true, Option.some.injEq] at h
+          subst h
+          simp [Col.get, getElem?_setAt, FV.toList]
+        | many xs =>
+          simp only [set, ht, if_true, Option.some.injEq] at h
+          subst h
+          simp [Col.get, getElem?_setAt, FV.toList]
+      · cases v <;> simp [set, ht] at h
+    | list t vals =>
+      by_cases ht : t = ty
+      · cases v with
+        | one x =>
+          simp only [set, ht, if_true, Option.some.injEq] at h
+          subst h
+          simp [Col.get, getElem?_setAt, FV.toList]
+        | many xs =>
+          simp only [set, ht, if_true, Option.some.injEq] at h
+          subst h
+          simp [Col.get, getElem?_setAt, FV.toList]
+      · cases v <;> simp [set, ht] at h
+
+/-- the seeded change C15-b: document 0 has two f64 values, document 1 one — both accepted, the
+commit panics; with the real arms the same calls succeed and keep both documents' values -/
+theorem seeded_colset_fails :
+    run setSeeded .f64 (none : Option (Col Nat)) [(0, .many [1, 2]), (1, .one 3)] = none ∧
+    (∃ c, run set .f64 (none : Option (Col Nat)) [(0, .many [1, 2]), (1, .one 3)] = some (some c) ∧
+      c.get 0 = [1, 2] ∧ c.get 1 = [3]) ∧
+    -- the other order (single first, promoted by the second document) works in both variants
+    (run setSeeded .f64 (none : Option (Col Nat)) [(0, .one 3), (1, .many [1, 2])]).isSome = true := by
+  refine ⟨by decide, ⟨_, rfl, by decide, by decide⟩, by decide⟩
+
+end SL.FastCol
